@@ -148,6 +148,9 @@ func (r *Rng) perm(n int) []int {
 	return p
 }
 
+// the C14 stream keeps HistoricalEntries >= 1 (retention 0 is C13's known finding D7)
+var valNoZeroEntries bool
+
 // one random operation against the live state
 func randValOp(rg *Rng, r *ValRun, nOps, nKeys int, keepNonEmpty bool) TVOp {
 	cur := r.Snaps[len(r.Snaps)-1]
@@ -194,6 +197,9 @@ func randValOp(rg *Rng, r *ValRun, nOps, nKeys int, keepNonEmpty bool) TVOp {
 		e := uint64([]int{0, 1, 1, 2, 2, 3, 4}[rg.Intn(7)])
 		if rg.Chance(50) {
 			e = cur.Entries
+		}
+		if valNoZeroEntries && e == 0 {
+			e = 1
 		}
 		return TVOp{Kind: "params", MaxV: m, Entries: e}
 	}
